@@ -85,13 +85,14 @@ claim("C05", "Coq proof (characterisation of the running best as first maximum) 
 claim("C06", "Coq proof (memory invariant; shared dictionary under every schedule by induction) + differential and schedule correspondence",
       "Theorems (Coq, closed): C06_memory_cache_exact - per call with memory on, objective calls are pairwise distinct, never hit a "
       "key of the initial dictionary, a revisit returns the stored result, memory_dict = initial ++ exactly the newly evaluated "
-      "positions with their results; C06_shared_memory_sound - for N processes and EVERY interleaving of atomic contains/get/set "
+      "positions with their results; C06_memory_transparent - search_data, best and the optimizer state equal those of the "
+      "memory=False call; C06_shared_memory_sound - for N processes and EVERY interleaving of atomic contains/get/set "
       "operations no get fails, every reported score is objective(key) and stored, and every key was initial or evaluated by "
       "somebody. " + DRV + "P-unit: the real Memory.memory wrapper run by 2-3 threads on one dictionary whose operations a "
       "scheduler releases one at a time, against the model's small-step semantics on the same schedule (values, final dict, "
       "evaluation multiset). Memory on/off pairs and real multi-process runs on a Manager dict are monitored.",
-      TRUST + " Atomicity of each DictProxy operation; 'identical to the memory=False run' is checked by paired runs (monitor), the "
-      "theorem gives that every memory answer equals the objective's value.",
+      TRUST + " Atomicity of each DictProxy operation. C06_memory_transparent (a lock-step simulation) proves that the memory=True call "
+      "yields the same rows, best, counters and optimizer state as the memory=False call from the same state (deterministic objective, no warm start).",
       "DESIGN.md section 5, C06")
 
 claim("C20", "Coq proof (round-trip and batched=single theorems over all spaces) + exhaustive/differential correspondence of every Converter method",
